@@ -68,29 +68,31 @@ def variant_names(fx, value_ty):
 
 
 def decision_pairs(b, vnames):
-    """(variantA, variantB) pairs that have an own arm in `match (self, rhs)`"""
+    """(variantA, variantB) pairs that have an own arm in `match (self, rhs)`; scrutinees are
+    identified by provenance (discriminant of parameter 1 / parameter 2)"""
+    pv = F.Prov(b)
     pairs = {}
-    t0 = b.blocks[0]['term']
-    entry = 0
-    # find the first switch on a discriminant of tuple field 0
-    disc = {}
-    for bi, j, s in b.stmts():
-        if s['k'] == 'Assign' and s['rv']['k'] == 'Discriminant':
-            pl = s['rv']['place']
-            fld = [e for e in pl['p'] if e['k'] == 'Field']
-            if fld:
-                disc[s['place']['l']] = fld[0]['i']
+
+    def which(t):
+        if t['k'] != 'SwitchInt':
+            return None
+        ts = pv.of_operand(t['discr'])
+        if len(ts) == 1:
+            x = next(iter(ts))
+            if x[0] == 'discr' and x[1][0] == 'param':
+                return x[1][1] - 1
+        return None
     first = None
     for bi in sorted(b.live_blocks()):
         t = b.blocks[bi]['term']
-        if t['k'] == 'SwitchInt' and F.op_local(t['discr']) in disc and disc[F.op_local(t['discr'])] == 0:
+        if which(t) == 0:
             first = (bi, t)
             break
     if not first:
         raise F.Lost('unrecognised match shape in %s' % b.path)
     for v0, tgt in first[1]['arms']:
         t = b.blocks[tgt]['term']
-        if t['k'] == 'SwitchInt' and disc.get(F.op_local(t['discr'])) == 1:
+        if which(t) == 1:
             for v1, tgt2 in t['arms']:
                 if tgt2 != t['otherwise']:
                     pairs[(vnames[int(v0)], vnames[int(v1)])] = tgt2
